@@ -24,8 +24,8 @@ func registerC13() {
 		},
 		MinNontrivial: 500,
 		Families: []lib.Family{
-			{Name: "interleave", N: func(t string) uint64 { return tierN(t, 12000, 1000000) }, Run: c13Case},
-			{Name: "chain-slots", N: func(t string) uint64 { return tierN(t, 1500, 100000) }, Run: c13Chain},
+			{Name: "interleave", N: func(t string) uint64 { return tierN(t, 100000, 2000000) }, Run: c13Case},
+			{Name: "chain-slots", N: func(t string) uint64 { return tierN(t, 10000, 300000) }, Run: c13Chain},
 		},
 	})
 }
